@@ -156,11 +156,18 @@ pub fn run(args: &[String]) {
             }
             let tys: Vec<&TypeInfo> = set.iter().map(|&i| &types[i]).collect();
             let feats = class_feats(&tys);
-            for perm in permutations(k) {
+            // sets of up to 3 also with an absolute TS_RS_EXPORT_DIR (one member spells the file with `..`)
+            let envs: &[bool] = if k <= 3 { &[false, true] } else { &[false] };
+            for (perm, &env_abs) in permutations(k).into_iter().flat_map(|p| envs.iter().map(move |e| (p.clone(), e))) {
                 let order: Vec<usize> = perm.iter().map(|&j| set[j]).collect();
                 rep.evaluations += 1;
                 let wd = scratch.fresh();
                 std::env::set_current_dir(&wd).unwrap();
+                if env_abs {
+                    std::env::set_var("TS_RS_EXPORT_DIR", wd.join("bindings"));
+                } else {
+                    std::env::remove_var("TS_RS_EXPORT_DIR");
+                }
                 hooks::reset_registry();
                 let names: Vec<&str> = order.iter().map(|&i| types[i].rust).collect();
                 let file = wd.join("bindings/shared/m.ts");
@@ -234,6 +241,7 @@ pub fn run(args: &[String]) {
             }
         }
     }
+    std::env::remove_var("TS_RS_EXPORT_DIR");
     rep.count("fs_sets_with_2plus_orders", groups);
     rep.states = rep.distinct.len() as u64 + fs_outcomes.values().map(|s| s.len() as u64).sum::<u64>();
     drop(scratch);
